@@ -574,8 +574,9 @@ def problems(draw, profile=None):
 
     # options
     options = {}
+    # nb_points is validated by cobyqa against the number of *non-fixed* variables, so it is drawn
+    # within the documented range for that number (stated as an assumption of the checks)
     nfree = sum(1 for l, u in zip(lb, ub) if not (l == u))
-    nfree = max(nfree, 1)
     npt_max = (nfree + 1) * (nfree + 2) // 2
     npt = 2 * nfree + 1
     if pct(P["opt_prob"]):
